@@ -85,7 +85,7 @@ pub fn fuzz_one(t: Target, data: &[u8]) {
 }
 
 fn is_known(prop: &str, f: &Failure) -> bool {
-    let Ok(txt) = std::fs::read_to_string("/verif/known_findings.json") else { return false };
+    let Ok(txt) = std::fs::read_to_string(format!("{}/known_findings.json", crate::runner::verif_dir())) else { return false };
     let Ok(v) = serde_json::from_str::<Value>(&txt) else { return false };
     v.get("findings")
         .and_then(|a| a.as_array())
@@ -100,7 +100,7 @@ fn is_known(prop: &str, f: &Failure) -> bool {
 }
 
 fn write_replay(t: Target, case: &Value, f: &Failure) -> String {
-    let _ = std::fs::create_dir_all("/verif/replays");
+    let _ = std::fs::create_dir_all(format!("{}/replays", crate::runner::verif_dir()));
     let body = json!({
         "property": t.property(),
         "stage": format!("libfuzzer:{t:?}"),
@@ -108,7 +108,7 @@ fn write_replay(t: Target, case: &Value, f: &Failure) -> String {
         "case": case,
     });
     let txt = serde_json::to_string_pretty(&body).unwrap();
-    let path = format!("/verif/replays/{}-fuzz-{:016x}.json", t.property(), crate::runner::hash_of(&txt));
+    let path = format!("{}/replays/{}-fuzz-{:016x}.json", crate::runner::verif_dir(), t.property(), crate::runner::hash_of(&txt));
     let _ = std::fs::write(&path, txt);
     path
 }
